@@ -26,7 +26,7 @@ def attach_items(F, node, st, expr):
 
 def resolve(F, node, st, e, depth):
     roles, rd = F.roles, F.rd
-    B, D, E = st
+    B, D, E = st[:3]
     if depth > 10:
         raise AnalysisError("C13: attach expression too deep")
     if isinstance(e, ast.Name):
@@ -40,6 +40,9 @@ def resolve(F, node, st, e, depth):
             if rec[0] != "expr":
                 raise AnalysisError(f"C13: cannot resolve `{e.id}` attached at line {node.lineno}")
             if feasible(F, d.ast, st):
+                if any(isinstance(x, ast.Name) and x.id == roles.byte_var for x in ast.walk(rec[1])) and stale(F, d, node, e.id):
+                    # the definition copied the look-ahead byte, and a later pull may have replaced that byte since
+                    return [("other", f"copy of `{roles.byte_var}` taken at line {d.lineno}, before a later pull")]
                 cands.append(rec[1])
         if len(cands) == 1:
             return resolve(F, node, st, cands[0], depth + 1)
@@ -157,10 +160,47 @@ def inline_helper(F, node, st, helper, call, depth):
     raise AnalysisError(f"C13: helper {helper.name} builds different remaining bytes on paths the typestate cannot decide")
 
 
+def stale(F, dnode, node, var):
+    """can a pull of the next byte execute between the definition of `var` at `dnode` and its use at `node` (with no other
+    definition of `var` in between)?"""
+    pulls = {n.id for n, _st in F.next}
+    kills = {n.id for n in F.cfg.nodes if var in F.rd.defs.get(n.id, {})}
+
+    def reach(start, avoid):
+        seen, stack = set(), [s_ for _l, s_ in start.succ] + list(F.cfg.handlers_of(start))
+        while stack:
+            n = stack.pop()
+            if n.id in seen or n.id == avoid or (n.id in kills and n.id != node.id):
+                continue
+            seen.add(n.id)
+            stack.extend(s_ for _l, s_ in n.succ)
+            stack.extend(F.cfg.handlers_of(n))
+        return seen
+    r1 = reach(dnode, dnode.id)
+    by_id = {n.id: n for n in F.cfg.nodes}
+    for pid in pulls & r1:
+        if node.id in reach(by_id[pid], dnode.id):
+            return True
+    return False
+
+
 def feasible(F, stmt, st):
     """Is the definition statement `stmt` consistent with abstract state st?  (it sits under
     if-tests on the depleted flag that the state decides; the flag does not change between the
     definition and the attach site - both are inside one exception handler)"""
+    # a definition next to a pull: after it in the protected block = the pull succeeded (source not exhausted so far);
+    # in its StopIteration handler = the source is exhausted
+    pulls = {id(n) for n in F.roles.next_sites}
+    child, p = stmt, getattr(stmt, "_parent", None)
+    while p is not None and not isinstance(p, ast.FunctionDef):
+        if isinstance(p, ast.Try) and any(id(x) in pulls for b in p.body for x in ast.walk(b)):
+            if any(child is x for x in p.body) and st[1]:
+                return False
+        if isinstance(p, ast.ExceptHandler) and p.type is not None and norm(p.type) == "StopIteration":
+            t = getattr(p, "_parent", None)
+            if isinstance(t, ast.Try) and any(id(x) in pulls for b in t.body for x in ast.walk(b)) and not st[1]:
+                return False
+        child, p = p, getattr(p, "_parent", None)
     child, p = stmt, getattr(stmt, "_parent", None)
     while p is not None and not isinstance(p, (ast.FunctionDef, ast.ExceptHandler)):
         if isinstance(p, ast.If):
@@ -174,12 +214,12 @@ def feasible(F, stmt, st):
 
 
 def pick(F, test, st):
-    B, D, E = st
+    B, D, E = st[:3]
     neg = False
     while isinstance(test, ast.UnaryOp) and isinstance(test.op, ast.Not):
         neg = not neg
         test = test.operand
-    if isinstance(test, ast.Name) and test.id == F.roles.depleted_var:
+    if F.roles.depleted_var is not None and isinstance(test, ast.Name) and test.id == F.roles.depleted_var:
         return D != neg
     if isinstance(test, ast.Compare) and len(test.ops) == 1 and isinstance(test.ops[0], (ast.Is, ast.IsNot)) \
             and isinstance(test.comparators[0], ast.Constant) and test.comparators[0].value is None:
@@ -188,7 +228,7 @@ def pick(F, test, st):
         if isinstance(test.left, ast.Constant):
             return (test.left.value is None) != neg
         if isinstance(test.left, ast.Name) and test.left.id == F.roles.byte_var:
-            return (B == "INIT") != neg  # the look-ahead variable is None exactly until the first pull
+            return (B in ("INIT", "EMPTY")) != neg  # the look-ahead variable is None until the first pull / after exhaustion
         if isinstance(test.left, ast.Name) and test.left.id == F.roles.iter_var:
             return neg
     return None
